@@ -75,7 +75,7 @@ def unexpected(merged, out):
     if ue:
         out["inconclusive"].append("runs ended with exceptions outside the expected classes: %s" % ue[:3])
     anchors = merged["counters"].get("anchors", {})
-    miss = [k for k, v in anchors.items() if v == "not_executed"]
-    if miss:
-        out["inconclusive"].append("anchor lines never executed by the workload: %s" % miss[:3])
+    # anchor coverage is evidence only (it is sampled on the first cases of each shard); the deciding "was it reached" information
+    # are the monitor counters with minimums in each check's finalize()
     out["anchors"] = anchors
+    out["anchors_not_executed_in_the_sampled_cases"] = [k for k, v in anchors.items() if v == "not_executed"]
